@@ -18,6 +18,13 @@ KNOWN_TEXT = {
 RESENDS = [-1, 5000, 60000]
 
 
+def fixed_flags():
+    """C04_*_FIXED of coq/Gen/Consts.v (written by tools/gen_consts_d/c04_reqrep.py from the current source)"""
+    import re as _re
+    txt = open(os.path.join(COQ, "Gen", "Consts.v")).read()
+    return {m.group(1): m.group(2) == "true" for m in _re.finditer(r"Definition C04_(\w+)_FIXED : bool := (true|false)", txt)}
+
+
 def words(rng, n):
     """n backtrace words with the high bit clear"""
     return "".join("%02x%06x" % (rng.randrange(0x80), rng.randrange(1 << 24)) for _ in range(n))
@@ -41,7 +48,7 @@ class G:
         return "a%d" % (self.naio - 1)
 
 
-def gen_req_case(rng, timed=False, allow_opt_change=False):
+def gen_req_case(rng, timed=False, allow_opt_change=False, allow_cancel_send=False):
     g = G(rng)
     L = g.lines
     L.append("open s0 req0")
@@ -106,8 +113,11 @@ def gen_req_case(rng, timed=False, allow_opt_change=False):
             a = "a%d" % rng.randrange(g.naio)
             # cancelling a queued send while a receive is posted on the same context asserts (known finding): probed separately
             risky = [t for t, sa in last_send_aio.items() if sa == a and recv_after_send.get(t)]
-            if not risky:
+            if allow_cancel_send or not risky:
                 L.append("cancel %s" % a)
+        elif r < 0.935 and allow_opt_change:
+            # changing the resend time while a request is outstanding: use-after-free / leak on the pinned tree (known finding)
+            L.append("setopt %s req:resend-time ms %d" % (g.tgt(), rng.choice(RESENDS)))
         elif r < 0.94 and g.ctxs and rng.random() < 0.5:
             c = g.ctxs.pop(rng.randrange(len(g.ctxs))); L.append("ctxclose %s" % c)
         elif r < 0.97 and timed:
